@@ -71,7 +71,8 @@ ASSUMPTIONS = [
     'for two locations itself',
     'file modes are not asserted',
     'DESTDIR is absolute; environment-form DESTDIR (ignored by design) is not used; '
-    'make back end only',
+    'Make and (every third project in quick, all in thorough) the Ninja back end through the '
+    'reference Ninja evaluator (configure-time DESTDIR only: Ninja has no command-line variables)',
 ]
 
 
@@ -80,6 +81,7 @@ def floors(tier):
     # weakest of seeds 0-3; the forced feature cycle makes them seed-independent
     f = {
         'install:run': (24, 250),
+        'install:run:ninja': (4, 100),
         'install:rerun-over-existing': (2, 25),
         'install:entry-placed': (150, 2500),
         'install:bystander-intact': (100, 1800),
@@ -190,6 +192,18 @@ def cases(tier, seed):
                'config': cfg,
                'configure_destdir': conf_destdir, 'rounds': rounds,
                'entries': entries}
+        # the Ninja back end writes its own install/uninstall rules: every third project
+        # (every project in thorough) is also installed through the reference Ninja evaluator.
+        # Ninja has no command-line variables, so DESTDIR only exists in its configure-time form
+        if tier == 'thorough' or i % 3 == 0:
+            nrounds = [{'arg': None}]
+            if i % 2:
+                nrounds[0]['reinstall'] = True
+            yield {'id': i, 'backend': 'ninja', 'features': force, 'traits': traits,
+                   'files': files, 'config': cfg,
+                   'configure_destdir': (conf_destdir or
+                                         (DESTDIRS[1 + i % 3] if i % 4 != 3 else None)),
+                   'rounds': nrounds, 'entries': entries}
 
 
 # --------------------------------------------------------------------------
@@ -218,7 +232,10 @@ def readelf_dyn(path, env):
 
 def snap(R):
     s = proj.snapshot(R)
-    for k in [k for k in s if k == 'log' or k.startswith('log.')]:
+    # the recorder's log and the (reference) Ninja tool's own state files are not bfg9000's doing
+    for k in [k for k in s if k == 'log' or k.startswith('log.') or
+              os.path.basename(k) in ('.refninja_log.json', '.refninja_deps.json',
+                                      '.ninja_log', '.ninja_deps')]:
         del s[k]
     return s
 
@@ -260,6 +277,7 @@ def run_case(case):
 
 def _wit(case, **kw):
     w = {'features': case.get('features'), 'traits': case.get('traits'),
+         'backend': case.get('backend', 'make'),
          'config': case['config'],
          'configure_destdir': case['configure_destdir'],
          'build_bfg': case['files']['build.bfg']}
@@ -288,7 +306,9 @@ def _run(case, res, R):
     args = []
     for k, v in cfg.items():
         args += ['--' + k.replace('_', '-'), v]
-    rc, out = proj.configure(src, bld, 'make', args, env=cenv)
+    backend = case.get('backend', 'make')
+    res.classes.add('backend:' + backend)
+    rc, out = proj.configure(src, bld, backend, args, env=cenv)
     if rc != 0:
         sig = 'error'
         m = re.search(r'^(\w*Error|error):? *(.*)$', out, re.M)
@@ -305,7 +325,7 @@ def _run(case, res, R):
         res.violate(('configure', 'rejected', sig),
                     _wit(case, output=out[-1500:]))
         return
-    rc, out = proj.build(bld, 'make', ['all'], env=env)
+    rc, out = proj.build(bld, backend, ['all'], env=env)
     if rc != 0:
         res.violate(('build', 'failed', tool_of_failure(out)),
                     _wit(case, output=out[-1500:]))
@@ -333,6 +353,7 @@ def _run(case, res, R):
 
 def _round(case, res, R, src, bld, log, env, dirs, entries, conf_destdir, ri, rnd):
     arg = rnd['arg']
+    backend = case.get('backend', 'make')
     if arg is not None:
         arg = _sub(arg, R)
     destdir = arg if arg is not None else (conf_destdir or '')
@@ -390,18 +411,19 @@ def _round(case, res, R, src, bld, log, env, dirs, entries, conf_destdir, ri, rn
         (e.get('elf') and e['elf']['needed']) or e['kind'] == 'hdrdir-member'
         for e in entries)
     res.key([core.digest([case['files'], case['config'], case['configure_destdir']]),
-             rnd], nontrivial)
+             rnd, backend], nontrivial)
 
     s0 = snap(R)
     proj.clear_log(log)
-    rc, out = proj.build(bld, 'make', ['install'] + mkargs, env=env)
+    rc, out = proj.build(bld, backend, ['install'] + mkargs, env=env)
     res.ev('install:run')
+    res.ev('install:run:' + backend)
     if rc != 0:
         res.violate(('install', 'command-failed', tool_of_failure(out)),
                     wit(output=out[-2000:]))
         return
     if rnd.get('reinstall'):
-        rc, out = proj.build(bld, 'make', ['install'] + mkargs, env=env)
+        rc, out = proj.build(bld, backend, ['install'] + mkargs, env=env)
         res.ev('install:rerun-over-existing')
         if rc != 0:
             res.violate(('reinstall', 'command-failed', tool_of_failure(out)),
@@ -622,7 +644,7 @@ def _round(case, res, R, src, bld, log, env, dirs, entries, conf_destdir, ri, rn
             os.rename(away, bld)
 
     # ---- 6. uninstall
-    rc, out = proj.build(bld, 'make', ['uninstall'] + mkargs, env=env)
+    rc, out = proj.build(bld, backend, ['uninstall'] + mkargs, env=env)
     res.ev('uninstall:run')
     if rc != 0:
         res.violate(('uninstall', 'command-failed', tool_of_failure(out)),
